@@ -588,6 +588,12 @@ func (s *Sim) resolveBlocked() bool {
 			s.violate("C05", fmt.Sprintf("C05|%s|%s|blocked-c-header|after-SendHeader", rs.r.Transport, kindNames[rs.r.Kind]), rs.r.ID,
 				"rpc%d %s %s: the handler's SendHeader returned nil, yet the client's Header() (seq %d) still blocks and nothing else can happen (handler and client wait for each other): a deadlock made by the library", rs.r.ID, rs.r.Transport, kindNames[rs.r.Kind], b.ev.Seq)
 		}
+		if b.ev.Side == 'h' && (b.ev.Op == "settlr" || b.ev.Op == "sethdr") {
+			// SetTrailer and SetHeader only record metadata: nothing they could
+			// legitimately wait for
+			s.violate("C05", fmt.Sprintf("C05|%s|%s|blocked-h-%s|behind-a-blocked-send", rs.r.Transport, kindNames[rs.r.Kind], b.ev.Op), rs.r.ID,
+				"rpc%d %s %s: the handler's %s (seq %d) does not return: it waits behind the SendMsg of the handler's sender goroutine, which is blocked on backpressure; the handler stops receiving meanwhile and nothing else can happen", rs.r.ID, rs.r.Transport, kindNames[rs.r.Kind], b.ev.Op, b.ev.Seq)
+		}
 		if ctxDone || (hDone && b.ev.Side == 'c') {
 			why := "context done"
 			if !ctxDone {
